@@ -11,6 +11,7 @@ import os
 import re
 import shlex
 import subprocess
+import threading
 import time
 
 from common import VERIF, NCPU, OFFLINE_ENV, log, copy_repo
@@ -56,15 +57,33 @@ class Undecided(Exception):
     pass
 
 
-# address-space limit per process (inherited by every cbmc / kani-driver child): one run-away SAT instance must end as
-# "undecided" for its own harness instead of taking the machine (and every other harness of the group) down with it
+# resident-set limit per cbmc process (watchdog): one run-away SAT instance must end as "undecided" for its own harness
+# instead of taking the machine (and every other harness of the group) down with it
 MEM_LIMIT_GB = int(os.environ.get("VERIF_KANI_MEM_GB", "18"))
 
 
-def _limit_memory():
-    import resource
-    lim = MEM_LIMIT_GB * 1024 * 1024 * 1024
-    resource.setrlimit(resource.RLIMIT_AS, (lim, lim))
+def _cbmc_watchdog(stop):
+    """Kill any cbmc process whose resident set exceeds MEM_LIMIT_GB. (An address-space rlimit on the whole process tree
+    also hits kani-driver, which maps > 18 GB for harnesses with tens of thousands of checks and then aborts the batch.)"""
+    lim_kb = MEM_LIMIT_GB * 1024 * 1024
+    while not stop.wait(3.0):
+        try:
+            for pid in os.listdir("/proc"):
+                if not pid.isdigit():
+                    continue
+                try:
+                    with open("/proc/%s/comm" % pid) as f:
+                        if f.read().strip() != "cbmc":
+                            continue
+                    with open("/proc/%s/status" % pid) as f:
+                        m = re.search(r"VmRSS:\s+(\d+) kB", f.read())
+                    if m and int(m.group(1)) > lim_kb:
+                        log("[kani] cbmc %s exceeds %d GB resident: killed (its harness becomes undecided)" % (pid, MEM_LIMIT_GB))
+                        os.kill(int(pid), 9)
+                except (OSError, ValueError):
+                    continue
+        except OSError:
+            pass
 
 
 class Harness:
@@ -282,13 +301,18 @@ def _run_batch(scratch, cfg_name, harnesses, jobs=None, extra_args=None):
     # overall budget: compile + waves of harnesses
     waves = (len(harnesses) + MAX_JOBS - 1) // MAX_JOBS
     overall = 600 + tmo * waves + 120
+    stop = threading.Event()
+    wd = threading.Thread(target=_cbmc_watchdog, args=(stop,), daemon=True)
+    wd.start()
     try:
-        p = subprocess.run(cmd, cwd=scratch, env=env, capture_output=True, text=True, timeout=overall, preexec_fn=_limit_memory)
+        p = subprocess.run(cmd, cwd=scratch, env=env, capture_output=True, text=True, timeout=overall)
         stdout, stderr, rc = p.stdout, p.stderr, p.returncode
     except subprocess.TimeoutExpired as e:
         stdout = (e.stdout or b"").decode("utf8", "replace") if isinstance(e.stdout, bytes) else (e.stdout or "")
         stderr = (e.stderr or b"").decode("utf8", "replace") if isinstance(e.stderr, bytes) else (e.stderr or "")
         rc = -9
+    finally:
+        stop.set()
     wall = round(time.time() - t0, 1)
     results = {}
     data = None
